@@ -11,6 +11,7 @@ from ..runner import Result, Violation
 BASE = "::std::fmt::Debug + ::std::clone::Clone + ::serde::Serialize + ::serde::de::DeserializeOwned + for<'a> ::std::convert::From<&'a T>"
 ORDER = " + ::std::marker::Copy + ::std::cmp::Eq + ::std::cmp::Ord + ::std::hash::Hash + ::std::cmp::PartialOrd + ::std::cmp::PartialEq"
 STRNEW = " + ::std::cmp::Eq + ::std::cmp::Ord + ::std::hash::Hash"
+OVERLAP = {"struct_builder": False, "derives": ["PartialEq", "Clone", "Debug"]}   # derives the user asks for that typify also adds by itself
 SETTINGS = [{"struct_builder": False}, {"struct_builder": True}, {"struct_builder": False, "derives": ["PartialEq"]},
             {"struct_builder": True, "derives": ["PartialEq"], "map_type": "::verif_support::ext::VMap"}]
 
@@ -27,6 +28,8 @@ def cases(tier, seed):
             q["id"] = "%s#s%d" % (p["id"], i)
             q["settings"] = st
             out.append(q)
+        if p.get("ctx") == "def":
+            out.append(dict(p, id="%s#overlap" % p["id"], settings=OVERLAP))
     return out
 
 
